@@ -18,6 +18,15 @@ func Scenarios(thorough bool) map[string]*Scenario {
 		"Q02": {ID: "Q02", Kind: "CloneSet", Style: "partition", Replicas: 3, Traffic: "ingress", Grace: 1,
 			Steps: []StepSpec{{Replicas: "1", Traffic: "20%"}, {Replicas: "100%"}}},
 	}
+	// Deployment canary style (extra canary Deployment) + nginx Ingress; last step covers all replicas with traffic
+	m["Q05"] = &Scenario{ID: "Q05", Kind: "Deployment", Style: "canary", Replicas: 3, Traffic: "ingress", Grace: 1,
+		Steps: []StepSpec{{Replicas: "1", Traffic: "20%"}, {Replicas: "3", Traffic: "50%"}}}
+	// Deployment partition style (the repository's advanced Deployment controller drives the ReplicaSets)
+	m["Q07"] = &Scenario{ID: "Q07", Kind: "Deployment", Style: "partition", Replicas: 4,
+		Steps: []StepSpec{{Replicas: "25%"}, {Replicas: "50%"}, {Replicas: "100%"}}}
+	// Deployment blue-green + nginx Ingress
+	m["Q08"] = &Scenario{ID: "Q08", Kind: "Deployment", Style: "bluegreen", Replicas: 3, Traffic: "ingress", Grace: 1,
+		Steps: []StepSpec{{Replicas: "100%", Traffic: "0%"}, {Replicas: "100%", Traffic: "50%"}, {Replicas: "100%", Traffic: "100%"}}}
 	if thorough {
 		m["Q01"].Replicas = 5
 		m["Q01"].Steps = []StepSpec{{Replicas: "20%"}, {Replicas: "60%"}, {Replicas: "100%"}}
@@ -33,7 +42,13 @@ type PropertyPlan struct {
 	Disturbances []string
 	MaxDisturb   int
 	FreeQueues   bool
-	Monitors     func() []Monitor
+	Monitors     func(w *World, sc *Scenario) []Monitor
+	Liveness     bool
+	// LiveScenarios are additionally explored with REAL queues (requeues, watch events) and judged by the
+	// liveness analysis; only crash-type disturbances apply there.
+	LiveScenarios []string
+	// Relabel: violations of the shared monitors are reported under this property (C06 runs all of them).
+	Relabel bool
 	StateCap     int
 }
 
@@ -48,12 +63,29 @@ func Plans(thorough bool) map[string]PropertyPlan {
 	}
 	return map[string]PropertyPlan{
 		"C01": {Scenarios: []string{"Q01", "Q01b"}, Actions: []string{"scaleUp", "scaleDown", "editPlanInts", "editPlanMore", "jump(1)", "jump(3)", "pause", "resume"}, MaxUser: u,
-			FreeQueues: true, StateCap: capQ, Monitors: func() []Monitor { return []Monitor{ExposureMonitor{}} }},
+			FreeQueues: true, StateCap: capQ, Monitors: func(w *World, sc *Scenario) []Monitor { return []Monitor{ExposureMonitor{}} }},
 		"C02": {Scenarios: []string{"Q01", "Q01b"}, Actions: []string{"pause", "resume", "editPlanMore"}, MaxUser: u, Disturbances: []string{"crash", "midcrash"}, MaxDisturb: 1,
-			FreeQueues: true, StateCap: capQ, Monitors: func() []Monitor { return []Monitor{StepMonitor{}} }},
+			FreeQueues: true, StateCap: capQ, Monitors: func(w *World, sc *Scenario) []Monitor { return []Monitor{StepMonitor{}} }},
 		"C11": {Scenarios: []string{"Q01", "Q01b"}, Actions: []string{"scaleUp", "scaleDown", "editPlanMore", "degrade"}, MaxUser: u,
-			FreeQueues: true, StateCap: capQ, Monitors: func() []Monitor { return []Monitor{BatchStatusMonitor{}} }},
+			FreeQueues: true, StateCap: capQ, Monitors: func(w *World, sc *Scenario) []Monitor { return []Monitor{BatchStatusMonitor{}} }},
+		"C03": {Scenarios: []string{"Q02"}, Actions: []string{"jump(2)", "jump(1)", "editPlanMore", "scaleUp"}, MaxUser: u,
+			FreeQueues: true, StateCap: capQ, Monitors: func(w *World, sc *Scenario) []Monitor { return []Monitor{TrafficOrderMonitor{}} }},
+		"C04": {Scenarios: []string{"Q02"}, Actions: []string{"rollback", "release3", "disable", "deleteRollout", "jump(2)"}, MaxUser: u, Disturbances: []string{"crash"}, MaxDisturb: 1,
+			FreeQueues: true, StateCap: capQ, Monitors: func(w *World, sc *Scenario) []Monitor { return []Monitor{VoidMonitor{}} }},
+		"C10": {Scenarios: []string{"Q02"}, Actions: []string{"rollback", "release3"}, MaxUser: 1, Disturbances: []string{"crash", "midcrash"}, MaxDisturb: 1,
+			FreeQueues: true, StateCap: capQ, Monitors: func(w *World, sc *Scenario) []Monitor { return []Monitor{RollbackOrderMonitor{}} }},
+		"C05": {Scenarios: []string{"Q02", "Q01b"}, Actions: []string{"rollback", "disable", "deleteRollout", "editPlanMore"}, MaxUser: u,
+			FreeQueues: true, StateCap: capQ, Monitors: func(w *World, sc *Scenario) []Monitor { return []Monitor{&ExitMonitor{Base: CaptureBaseline(w, sc)}} }},
+		"C18": {Scenarios: []string{"Q02", "Q01b"}, Actions: []string{"deleteRollout"}, MaxUser: 1, Disturbances: []string{"crash", "midcrash", "error"}, MaxDisturb: 1,
+			FreeQueues: true, StateCap: capQ, Monitors: func(w *World, sc *Scenario) []Monitor { return []Monitor{FinalizerMonitor{}} }},
+		"C07": {Scenarios: []string{"Q01", "Q01b", "Q02"}, Actions: nil, MaxUser: 0,
+			FreeQueues: false, Liveness: true, StateCap: capQ, Monitors: func(w *World, sc *Scenario) []Monitor { return []Monitor{PanicMonitor{}} }},
+		"C06": {Scenarios: []string{"Q02", "Q01b"}, Actions: nil, MaxUser: 0, Disturbances: []string{"crash", "midcrash", "error", "conflict"}, MaxDisturb: 1,
+			FreeQueues: true, StateCap: capQ, Relabel: true, LiveScenarios: []string{"Q01b"},
+			Monitors: func(w *World, sc *Scenario) []Monitor {
+				return []Monitor{ExposureMonitor{}, StepMonitor{}, BatchStatusMonitor{}, TrafficOrderMonitor{}, VoidMonitor{}, &ExitMonitor{Base: CaptureBaseline(w, sc)}, FinalizerMonitor{}, PanicMonitor{}, OnceMonitor{}}
+			}},
 		"C09": {Scenarios: []string{"Q01", "Q01b"}, Actions: []string{"jump(-1)", "jump(0)", "jump(1)", "jump(2)", "jump(3)", "jump(4)", "jump(2147483647)"}, MaxUser: 1,
-			FreeQueues: true, StateCap: capQ, Monitors: func() []Monitor { return []Monitor{PanicMonitor{}} }},
+			FreeQueues: true, StateCap: capQ, Monitors: func(w *World, sc *Scenario) []Monitor { return []Monitor{PanicMonitor{}} }},
 	}
 }
